@@ -1,11 +1,6 @@
 package main
 
 import (
-	"fmt"
-	"go/token"
-	"go/types"
-	"strings"
-
 	"golang.org/x/tools/go/ssa"
 )
 
@@ -45,953 +40,6 @@ func loopHeader(b *ssa.BasicBlock) *ssa.BasicBlock {
 	return nil
 }
 
-func (c *Ctx) listLoop(o *obs, f *ssa.Function) *loopInfo {
-	a := c.FA(f)
-	fn := fname(f)
-	li := &loopInfo{a: a, body: map[*ssa.BasicBlock]bool{}}
-	var rs []ssa.CallInstruction
-	for _, ci := range a.invokes(a.c.renderName()) {
-		if isCodeType(c, ci.Common().Value.Type()) {
-			rs = append(rs, ci)
-		}
-	}
-	if len(rs) != 1 {
-		o.undecided(fn, "item render call", f.Pos(), "expected exactly one invoke of Code.render in the list renderer, found %d", len(rs))
-		return nil
-	}
-	li.R = rs[0]
-	li.item = li.R.Common().Value
-	for _, ci := range a.invokes(a.c.nullName()) {
-		if ci.Common().Value == li.item {
-			li.N = ci
-		}
-	}
-	if li.N == nil {
-		o.add(Violated, fn, "null test of the rendered item", li.R.Pos(), true, "no call item.isNull on the item that is rendered: null items would be rendered / separated")
-		return nil
-	}
-	li.header = loopHeader(li.R.Block())
-	if li.header == nil {
-		o.undecided(fn, "item loop", li.R.Pos(), "the item render call is not inside a loop")
-		return nil
-	}
-	for b := range reachableFrom(li.header, li.header) {
-		if reachableFrom(b, nil)[li.header] {
-			li.body[b] = true
-		}
-	}
-	li.body[li.header] = true
-	for _, s := range li.header.Succs {
-		if !li.body[s] {
-			li.done = s
-		}
-	}
-	// the first flag
-	for _, in := range li.header.Instrs {
-		phi, ok := in.(*ssa.Phi)
-		if !ok {
-			continue
-		}
-		if b, ok := phi.Type().Underlying().(*types.Basic); !ok || b.Kind() != types.Bool {
-			continue
-		}
-		for i, e := range phi.Edges {
-			if !li.body[li.header.Preds[i]] {
-				if v, ok := constBool(e); ok && v {
-					if li.first != nil {
-						o.undecided(fn, "first flag", phi.Pos(), "more than one candidate for the first-item flag")
-						return nil
-					}
-					li.first = phi
-				}
-			}
-		}
-	}
-	if li.first == nil {
-		o.undecided(fn, "first flag", li.header.Instrs[0].Pos(), "no boolean loop flag initialised to true found (the separator rule needs to know whether an item was rendered before)")
-		return nil
-	}
-	li.w = c.writerParam(f)
-	if li.w == nil {
-		o.undecided(fn, "writer parameter", f.Pos(), "no io.Writer parameter")
-		return nil
-	}
-	for _, s := range a.Sinks() {
-		if li.body[s.Call.Block()] {
-			li.sinks = append(li.sinks, s)
-		}
-	}
-	return li
-}
-
-func (li *loopInfo) itemNil() Lit  { return Lit{nilLit(li.a, li.item), true} }
-func (li *loopInfo) itemNull() Lit { return Lit{li.a.Desc(callValue(li.N)), true} }
-func (li *loopInfo) firstLit() Lit { return Lit{li.a.Desc(li.first), true} }
-
-// common obligations of both list renderers
-func (c *Ctx) checkListLoop(o *obs, f *ssa.Function, li *loopInfo) {
-	a := li.a
-	fn := fname(f)
-	nn, nnull := li.itemNil(), li.itemNull()
-	// the item is an element of the receiver's list, indexed by the loop variable
-	shape := collectionShape(a, li.item)
-	o.req(strings.HasPrefix(shape, "recv") && strings.Contains(shape, "[·]"), fn, "rendered item is the loop's element of the receiver's list", li.R.Pos(), "item = %s", a.Desc(li.item))
-	// null-skip: R and every sink only for non-nil, non-null items
-	facts := a.FactsOf(li.R)
-	o.req(facts.Has(nn.Atom, false) && facts.Has(nnull.Atom, false), fn, "item rendered only if not nil and not null", li.R.Pos(), "facts at the render call: %s", facts)
-	for i, s := range li.sinks {
-		sf := a.FactsOf(s.Call)
-		o.req(sf.Has(nn.Atom, false) && sf.Has(nnull.Atom, false), fn, fmt.Sprintf("loop write #%d (%s) only for a non-nil, non-null item", i+1, a.DataDesc(s)), s.Call.Pos(),
-			"a nil / null item must produce no output and no separator, at any position and for any arity; facts: %s", sf)
-		o.req(stripConv(s.Writer) == ssa.Value(li.w), fn, fmt.Sprintf("loop write #%d goes to the writer parameter", i+1), s.Call.Pos(), "writer %s", a.Desc(s.Writer))
-	}
-	// whenever not nil / not null: rendered (no other way round the loop)
-	for _, p := range li.header.Preds {
-		if !li.body[p] {
-			continue
-		}
-		// a back edge: every path header -> p -> header must pass R or an excused edge
-		blocked := map[*ssa.BasicBlock]bool{li.R.Block(): true}
-		ex := a.excuseBy([]Lit{nn, nnull})
-		var path []*ssa.BasicBlock
-		if p == li.R.Block() {
-			continue
-		}
-		path = a.FindPath(li.header, p, blocked, ex)
-		if path != nil {
-			// the final edge p->header may itself be the excused one
-			excusedLast := false
-			for i, s := range p.Succs {
-				if s == li.header && ex(p, i) {
-					excusedLast = true
-				}
-			}
-			if excusedLast {
-				continue
-			}
-			o.add(Violated, fn, fmt.Sprintf("an item is skipped although it is neither nil nor null (via block %d)", p.Index), p.Instrs[len(p.Instrs)-1].Pos(), true,
-				"path %s returns to the loop head without rendering the item and without the item being nil / null — some list position or arity is treated specially", pathString(path))
-		}
-	}
-	o.add(Discharged, fn, "every non-nil, non-null item is rendered", li.R.Pos(), true, "each way back to the loop head passes the render call or a nil / null edge")
-	// the loop ends only at the end of the list (no break) or by an error return
-	if li.done != nil {
-		for _, p := range li.done.Preds {
-			o.req(p == li.header, fn, fmt.Sprintf("loop left only at the end of the list (pred block %d)", p.Index), li.done.Instrs[0].Pos(), "a break would drop the remaining items")
-		}
-	}
-	for b := range li.body {
-		for _, s := range b.Succs {
-			if li.body[s] || s == li.done {
-				continue
-			}
-			// exit from the loop body: must be an error return
-			okExit := false
-			if len(s.Instrs) > 0 {
-				if r, ok := s.Instrs[len(s.Instrs)-1].(*ssa.Return); ok {
-					for _, res := range r.Results {
-						if isErrorType(res.Type()) && !isNilConst(res) {
-							okExit = true
-						}
-					}
-				}
-				if _, ok := s.Instrs[len(s.Instrs)-1].(*ssa.Panic); ok {
-					okExit = true // judged by W-PANICS
-				}
-			}
-			o.req(okExit, fn, fmt.Sprintf("early exit from the item loop (block %d) returns an error", s.Index), s.Instrs[len(s.Instrs)-1].Pos(), "leaving the loop early with success would truncate the list")
-		}
-	}
-	// first flag discipline
-	for i, e := range li.first.Edges {
-		p := li.header.Preds[i]
-		if !li.body[p] {
-			continue
-		}
-		afterR := p == li.R.Block() || li.R.Block().Dominates(p)
-		viaR := reachableFrom(li.R.Block(), li.header)[p] || p == li.R.Block()
-		construct := fmt.Sprintf("first flag on the way back from block %d", p.Index)
-		v := resolvePhi(e, p)
-		if bv, ok := constBool(v); ok && !bv {
-			o.req(afterR, fn, construct, li.first.Pos(), "flag cleared although no item was rendered on this way round the loop: the next item would get a separator it must not have")
-		} else if v == ssa.Value(li.first) {
-			o.req(!viaR, fn, construct, li.first.Pos(), "flag kept although an item was rendered on this way round the loop: the next item would lose its separator")
-		} else {
-			o.undecided(fn, construct, li.first.Pos(), "flag takes value %s", a.Desc(e))
-		}
-	}
-}
-
-// resolvePhi: if v is a phi located in block p's chain merging only one distinct value or the
-// value arriving from a given predecessor, simplify.
-func resolvePhi(v ssa.Value, p *ssa.BasicBlock) ssa.Value {
-	for depth := 0; depth < 4; depth++ {
-		phi, ok := v.(*ssa.Phi)
-		if !ok {
-			return v
-		}
-		var distinct []ssa.Value
-		for _, e := range phi.Edges {
-			dup := false
-			for _, d := range distinct {
-				if d == e {
-					dup = true
-				}
-			}
-			if !dup {
-				distinct = append(distinct, e)
-			}
-		}
-		if len(distinct) == 1 {
-			v = distinct[0]
-			continue
-		}
-		return v
-	}
-	return v
-}
-
-// sepObligations: the separator-like sink E must be written exactly when needed before R.
-func (c *Ctx) sepObligations(o *obs, f *ssa.Function, li *loopInfo, name string, sinks []*Sink, only []Lit, excuses []Lit) {
-	a := li.a
-	fn := fname(f)
-	if len(sinks) == 0 {
-		o.add(Violated, fn, name+" is written", li.R.Pos(), true, "no write of %s found in the item loop", name)
-		return
-	}
-	var effects []ssa.Instruction
-	for _, s := range sinks {
-		effects = append(effects, s.Call)
-		sf := a.FactsOf(s.Call)
-		okAll := true
-		for _, l := range only {
-			if !sf.Has(l.Atom, l.Pol) {
-				okAll = false
-			}
-		}
-		o.req(okAll, fn, name+" only under its condition", s.Call.Pos(), "needs %v; facts: %s", only, sf)
-		// R must follow in the same iteration
-		o.req(reachableFrom(s.Call.Block(), li.header)[li.R.Block()] || s.Call.Block() == li.R.Block(), fn, name+" is followed by the item", s.Call.Pos(), "")
-	}
-	path := a.Cut(li.header, li.R, effects, excuses)
-	o.req(path == nil, fn, name+" whenever its condition holds", li.R.Pos(),
-		"path %s reaches the item's render call without writing %s and without an edge that excuses it (%v) — some list position, arity or extra condition by-passes it", pathString(path), name, excuses)
-}
-
-func ruleStmtRender(c *Ctx) []Obligation {
-	o := c.newObs("P-STMTRENDER")
-	f := c.method("Statement", c.renderName())
-	if f == nil {
-		o.undecided("(*jen.Statement).render", "anchor", token.NoPos, "anchor lost")
-		return o.list
-	}
-	li := c.listLoop(o, f)
-	if li == nil {
-		return o.list
-	}
-	c.checkListLoop(o, f, li)
-	a := li.a
-	var sp []*Sink
-	for _, s := range li.sinks {
-		if a.DataDesc(s) == `" "` {
-			sp = append(sp, s)
-		} else {
-			o.add(Violated, fname(f), "unexpected write in the item loop: "+a.DataDesc(s), s.Call.Pos(), true, "a statement is its items joined by single spaces and nothing else")
-		}
-	}
-	fl := li.firstLit()
-	c.sepObligations(o, f, li, "space separator", sp, []Lit{{fl.Atom, false}}, []Lit{fl})
-	// the statement itself is passed down so a Block can see what precedes it
-	args := li.R.Common().Args
-	o.req(len(args) == 3 && args[0] == f.Params[1] && stripConv(args[1]) == ssa.Value(li.w) && args[2] == f.Params[0], fname(f), "item rendered with the same File and writer, and this statement as context", li.R.Pos(), "args %s, %s, %s", a.Desc(args[0]), a.Desc(args[1]), a.Desc(args[2]))
-	return o.list
-}
-
-func ruleRenderItems(c *Ctx) []Obligation {
-	o := c.newObs("P-RENDERITEMS")
-	var f *ssa.Function
-	// by role: the *Group method with an io.Writer parameter that invokes Code.render in a loop and returns (bool, error)
-	for _, g := range c.allFuncs(c.Jen) {
-		if g.Signature.Recv() == nil || types.TypeString(g.Signature.Recv().Type(), shortQual) != "*jen.Group" {
-			continue
-		}
-		if g.Signature.Results().Len() == 2 && len(c.FA(g).invokes(c.renderName())) > 0 && c.writerParam(g) != nil {
-			f = g
-		}
-	}
-	if f == nil {
-		o.undecided("(*jen.Group).renderItems", "anchor", token.NoPos, "anchor lost: no *Group method (File, io.Writer) (bool, error) invoking Code.render")
-		return o.list
-	}
-	li := c.listLoop(o, f)
-	if li == nil {
-		return o.list
-	}
-	c.checkListLoop(o, f, li)
-	a := li.a
-	fn := fname(f)
-	var sep, nl []*Sink
-	for _, s := range li.sinks {
-		switch a.DataDesc(s) {
-		case "recv.separator":
-			sep = append(sep, s)
-		case `"\n"`:
-			nl = append(nl, s)
-		default:
-			o.add(Violated, fn, "unexpected write in the item loop: "+a.DataDesc(s), s.Call.Pos(), true, "a group body is its items joined by the separator (and newlines if multi) and nothing else")
-		}
-	}
-	fl := li.firstLit()
-	sepEmpty := Lit{"empty(recv.separator)", true}
-	c.sepObligations(o, f, li, "separator", sep, []Lit{{fl.Atom, false}, {sepEmpty.Atom, false}}, []Lit{fl, sepEmpty})
-	multi := Lit{"recv.multi", true}
-	c.sepObligations(o, f, li, "newline before item", nl, []Lit{multi}, []Lit{{multi.Atom, false}})
-	// order: separator before newline
-	for _, s := range sep {
-		for _, n := range nl {
-			o.req(!reachableFrom(n.Call.Block(), li.header)[s.Call.Block()], fn, "separator precedes the newline", s.Call.Pos(), "a separator after the newline would start the next line")
-		}
-	}
-	// registration pre-pass
-	reg := c.registerFn()
-	regs := a.callsTo(reg)
-	if len(regs) == 0 {
-		o.add(Violated, fn, "package tokens are registered before the null test", li.N.Pos(), true, "no call of the registration function: a dot-imported package token is null, would be skipped, and its import would be missing")
-	}
-	tokAtom := "is<jen.token>(" + a.Desc(li.item) + ")"
-	var typAtom string
-	for _, rc := range regs {
-		facts := a.FactsOf(rc)
-		for atom, pol := range facts {
-			if pol && strings.HasPrefix(atom, "eq(\""+c.tokenTypeConst("packageToken")+"\",") && strings.HasSuffix(atom, ".typ)") {
-				typAtom = atom
-			}
-		}
-		arg := a.Desc(rc.Common().Args[1])
-		o.req(facts.Has(tokAtom, true) && typAtom != "" && strings.HasSuffix(strings.TrimSuffix(arg, ")"), ".content") || (facts.Has(tokAtom, true) && typAtom != "" && strings.Contains(arg, ".content")), fn, "registration only for a package token, with its path", rc.Pos(), "facts %s, argument %s", facts, arg)
-		o.req(li.body[rc.Block()], fn, "registration inside the item loop", rc.Pos(), "")
-	}
-	if len(regs) > 0 && typAtom != "" {
-		var eff []ssa.Instruction
-		for _, rc := range regs {
-			eff = append(eff, rc)
-		}
-		path := a.Cut(li.header, li.N, eff, []Lit{{tokAtom, false}, {typAtom, false}})
-		o.req(path == nil, fn, "every package token is registered before its null test", li.N.Pos(), "path %s reaches the null test of a package token without registering it (dot-imports would be dropped)", pathString(path))
-	}
-	// values guard: Dict next to other items is an error
-	dictAtom := "is<jen.Dict>(" + a.Desc(li.item) + ")"
-	valAtom := `eq("values",recv.name)`
-	lenAtom := "lt(1,builtin.len(recv.items))"
-	var guards []ssa.Instruction
-	for b := range li.body {
-		for _, s := range b.Succs {
-			if li.body[s] || s == li.done || len(s.Instrs) == 0 {
-				continue
-			}
-			r, ok := s.Instrs[len(s.Instrs)-1].(*ssa.Return)
-			if !ok {
-				continue
-			}
-			facts := a.FactsAt(s)
-			if facts.Has(dictAtom, true) && facts.Has(valAtom, true) && facts.Has(lenAtom, true) {
-				guards = append(guards, r)
-			}
-		}
-	}
-	if len(guards) == 0 {
-		o.add(Violated, fn, "a Dict next to other items of Values is rejected with an error", li.R.Pos(), true, "no error return under the facts %s ∧ %s ∧ %s", valAtom, dictAtom, lenAtom)
-	} else {
-		path := a.Cut(li.header, li.R, guards, []Lit{{dictAtom, false}, {valAtom, false}, {lenAtom, false}})
-		o.req(path == nil, fn, "a Dict next to other items of Values is rejected with an error", guards[0].Pos(), "path %s renders such a Dict", pathString(path))
-	}
-	// result: first flag at loop exit, nil error
-	if li.done != nil && len(li.done.Instrs) > 0 {
-		if r, ok := li.done.Instrs[len(li.done.Instrs)-1].(*ssa.Return); ok && len(r.Results) == 2 {
-			o.req(r.Results[0] == ssa.Value(li.first) && isNilConst(r.Results[1]), fn, "result reports whether no item was rendered", r.Pos(), "returns %s, %s", a.Desc(r.Results[0]), a.Desc(r.Results[1]))
-		} else {
-			o.undecided(fn, "result reports whether no item was rendered", li.done.Instrs[0].Pos(), "loop exit does not return directly")
-		}
-	}
-	// the item is rendered with no statement context
-	args := li.R.Common().Args
-	o.req(len(args) == 3 && args[0] == f.Params[1] && stripConv(args[1]) == ssa.Value(li.w), fn, "item rendered with the same File and writer", li.R.Pos(), "args %s, %s", a.Desc(args[0]), a.Desc(args[1]))
-	return o.list
-}
-
 // ---------------------------------------------------------------------------------------------
 
-func allWays(ws []Facts, pred func(Facts) bool) (bool, Facts) {
-	for _, w := range ws {
-		if !pred(w) {
-			return false, w
-		}
-	}
-	return true, nil
-}
-
-func ruleGroupRender(c *Ctx) []Obligation {
-	o := c.newObs("P-GROUPRENDER")
-	f := c.method("Group", c.renderName())
-	if f == nil {
-		o.undecided("(*jen.Group).render", "anchor", token.NoPos, "anchor lost")
-		return o.list
-	}
-	a := c.FA(f)
-	fn := fname(f)
-	w := c.writerParam(f)
-	// ITEMS: the call of the list renderer
-	var items *ssa.Call
-	for _, ci := range a.calls() {
-		sc := ci.Common().StaticCallee()
-		if sc == nil || ci.Common().IsInvoke() {
-			continue
-		}
-		if sc.Signature.Recv() != nil && sc.Signature.Results().Len() == 2 && len(c.FA(sc).invokes(c.renderName())) > 0 {
-			if call, ok := ci.(*ssa.Call); ok {
-				if items != nil {
-					o.undecided(fn, "items call", ci.Pos(), "more than one call of the list renderer")
-					return o.list
-				}
-				items = call
-			}
-		}
-	}
-	if items == nil {
-		o.undecided(fn, "items call", f.Pos(), "anchor lost: no call of the list renderer")
-		return o.list
-	}
-	o.req(items.Call.Args[0] == f.Params[0] && items.Call.Args[1] == f.Params[1] && stripConv(items.Call.Args[2]) == ssa.Value(w), fn, "items rendered with the same group, File and writer", items.Pos(), "")
-	o.req(!inCycle(items.Block()), fn, "items rendered once", items.Pos(), "")
-	var itemsNull, itemsErr ssa.Value
-	for _, r := range nonDebugRefs(items) {
-		if ex, ok := r.(*ssa.Extract); ok {
-			if ex.Index == 0 {
-				itemsNull = ex
-			} else {
-				itemsErr = ex
-			}
-		}
-	}
-	// sinks: before ITEMS = OPEN; after = TNL / CLOSE
-	var open, after []*Sink
-	for _, s := range a.Sinks() {
-		if stripConv(s.Writer) != ssa.Value(w) {
-			o.add(Violated, fn, "write to something other than the writer parameter", s.Call.Pos(), true, "%s", a.Desc(s.Writer))
-			continue
-		}
-		if reachableFrom(s.Call.Block(), nil)[items.Block()] {
-			open = append(open, s)
-		} else if reachableFrom(items.Block(), nil)[s.Call.Block()] {
-			after = append(after, s)
-		} else {
-			o.add(Violated, fn, "write that is neither before nor after the items", s.Call.Pos(), true, "%s", a.DataDesc(s))
-		}
-		o.req(!inCycle(s.Call.Block()), fn, "delimiter write "+sinkName(a, s)+" is not in a loop", s.Call.Pos(), "")
-	}
-	if len(open) != 1 {
-		o.add(Violated, fn, "exactly one write (the open token) precedes the items", f.Pos(), true, "found %d", len(open))
-		return o.list
-	}
-	OPEN := open[0]
-	openVal := stripConv(OPEN.Data[0])
-	// classify after-sinks: CLOSE writes the close value, TNL writes "\n" / ",\n"
-	var CLOSE, TNL *Sink
-	for _, s := range after {
-		leaves := dataLeaves(s.Data[0], map[ssa.Value]bool{})
-		isNL := true
-		for _, l := range leaves {
-			if str, ok := constString(l); !ok || !strings.HasSuffix(str, "\n") {
-				isNL = false
-			}
-		}
-		if isNL {
-			if TNL != nil {
-				o.add(Violated, fn, "more than one trailing-newline write", s.Call.Pos(), true, "")
-			}
-			TNL = s
-		} else {
-			if CLOSE != nil {
-				o.add(Violated, fn, "more than one close write", s.Call.Pos(), true, "%s", a.DataDesc(s))
-			}
-			CLOSE = s
-		}
-	}
-	if CLOSE == nil || TNL == nil {
-		o.add(Violated, fn, "trailing newline and close token are written after the items", items.Pos(), true, "close found: %v, trailing newline found: %v", CLOSE != nil, TNL != nil)
-		return o.list
-	}
-	closeVal := stripConv(CLOSE.Data[0])
-	// order TNL before CLOSE
-	o.req(!reachableFrom(CLOSE.Call.Block(), nil)[TNL.Call.Block()] && CLOSE.Call.Block() != TNL.Call.Block(), fn, "trailing newline precedes the close token", TNL.Call.Pos(), "a line comment at the end of the last item would otherwise swallow the close token")
-
-	// brace-less form: open / close values
-	prevDesc := ""
-	for _, ci := range a.calls() {
-		if sc := ci.Common().StaticCallee(); sc != nil && sc == c.role("previous") {
-			prevDesc = a.Desc(callValue(ci))
-			args := ci.Common().Args
-			o.req(len(args) == 2 && args[0] == ssa.Value(f.Params[3]) && stripConv(args[1]) == ssa.Value(f.Params[0]), fn, "the block looks up what precedes itself in the enclosing statement", ci.Pos(), "previous(%s, %s)", a.Desc(args[0]), a.Desc(args[len(args)-1]))
-		}
-	}
-	blockAtom := `eq("block",recv.name)`
-	sNil := "eq(nil,p2)"
-	isGrp := "is<*jen.Group>(" + prevDesc + ")"
-	grpNil := "eq(assert<*jen.Group>(" + prevDesc + ")#0,nil)"
-	caseAtom := `eq("case",assert<*jen.Group>(` + prevDesc + `)#0.name)`
-	isTok := "is<jen.token>(" + prevDesc + ")"
-	defAtom := `eq("default",assert<jen.token>(` + prevDesc + `)#0.content)`
-	like := func(w Facts, prefix, suffix string, pol bool) bool {
-		for atom, p := range w {
-			if p == pol && strings.HasPrefix(atom, prefix) && strings.HasSuffix(atom, suffix) && strings.Contains(atom, prevDesc) {
-				return true
-			}
-		}
-		return false
-	}
-	_, _ = caseAtom, defAtom
-	afterCase := func(w Facts) bool {
-		return w.Has(blockAtom, true) && w.Has(sNil, false) &&
-			((w.Has(isGrp, true) && like(w, `eq("case",`, `.name)`, true) && w.Has(grpNil, false)) || (w.Has(isTok, true) && like(w, `eq("default",`, `.content)`, true)))
-	}
-	notAfterCase := func(w Facts) bool {
-		if w.Has(blockAtom, false) || w.Has(sNil, true) {
-			return true
-		}
-		notCase := w.Has(isGrp, false) || w.Has(grpNil, true) || like(w, `eq("case",`, `.name)`, false)
-		notDef := w.Has(isTok, false) || like(w, `eq("default",`, `.content)`, false)
-		return notCase && notDef
-	}
-	for _, dv := range []struct {
-		name  string
-		val   ssa.Value
-		field string
-	}{{"open", openVal, "recv.open"}, {"close", closeVal, "recv.close"}} {
-		phi, isPhi := dv.val.(*ssa.Phi)
-		if !isPhi {
-			if a.Desc(dv.val) == dv.field {
-				o.add(Violated, fn, "brace-less form of a case block ("+dv.name+")", f.Pos(), true, "the %s token written is always the group's own: a Block after Case / Default would keep its braces", dv.name)
-			} else {
-				o.undecided(fn, "brace-less form of a case block ("+dv.name+")", f.Pos(), "%s value %s not recognised", dv.name, a.Desc(dv.val))
-			}
-			continue
-		}
-		for i, e := range phi.Edges {
-			pred := phi.Block().Preds[i]
-			ways := a.WaysOnEdge(pred, phi.Block())
-			construct := fmt.Sprintf("%s token on the way from block %d", dv.name, pred.Index)
-			if s, ok := constString(e); ok && s == "" {
-				ok, bad := allWays(ways, afterCase)
-				o.req(ok, fn, construct+": blank only for a block after a case group or default", phi.Pos(), "a way blanks the %s token without the block following Case / Default: %s", dv.name, bad)
-			} else if a.Desc(e) == dv.field {
-				ok, bad := allWays(ways, notAfterCase)
-				o.req(ok, fn, construct+": the group's own token unless the block follows a case group or default", phi.Pos(), "a way keeps the braces of a block that follows Case / Default: %s", bad)
-			} else {
-				o.add(Violated, fn, construct, phi.Pos(), true, "%s token takes the value %s", dv.name, a.Desc(e))
-			}
-		}
-	}
-	// the context lookup itself: returns the item just before the given one (or nil)
-	if pf := c.role("previous"); pf != nil {
-		c.checkPrevious(o, pf)
-	} else {
-		o.add(Violated, fn, "a block can see the item that precedes it", f.Pos(), true, "no lookup of the preceding item: Case / Default blocks cannot be recognised")
-	}
-	// OPEN iff open != ""
-	od := a.Desc(openVal)
-	of := a.FactsOf(OPEN.Call)
-	o.req(of.Has("empty("+od+")", false), fn, "open token written only if non-empty", OPEN.Call.Pos(), "facts %s", of)
-	typesAtom := `eq("types",recv.name)`
-	var nullItemsAtom string
-	for _, ci := range a.calls() {
-		if sc := ci.Common().StaticCallee(); sc != nil && len(c.FA(sc).invokes(c.nullName())) > 0 && sc.Signature.Results().Len() == 1 && sc != items.Call.StaticCallee() {
-			if b, ok := sc.Signature.Results().At(0).Type().Underlying().(*types.Basic); ok && b.Kind() == types.Bool {
-				nullItemsAtom = a.Desc(callValue(ci))
-			}
-		}
-	}
-	path := a.Cut(f.Blocks[0], items, []ssa.Instruction{OPEN.Call}, []Lit{{"empty(" + od + ")", true}})
-	o.req(path == nil, fn, "open token written whenever non-empty", OPEN.Call.Pos(), "path %s reaches the items without the open token", pathString(path))
-	// returns before the items: only the empty type-list special case
-	for _, r := range a.returns() {
-		if reachableFrom(items.Block(), nil)[r.Block()] || r.Block() == items.Block() {
-			continue
-		}
-		isErr := false
-		for _, res := range r.Results {
-			if isErrorType(res.Type()) && !isNilConst(res) {
-				isErr = true
-			}
-		}
-		if isErr {
-			continue
-		}
-		ok, bad := allWays(a.WaysTo(r.Block()), func(w Facts) bool {
-			return w.Has(typesAtom, true) && nullItemsAtom != "" && w.Has(nullItemsAtom, true)
-		})
-		o.req(ok, fn, "nothing is rendered only for a type list whose items are all null", r.Pos(), "a way returns before rendering the items without name==\"types\" ∧ all items null: %s", bad)
-	}
-	// CLOSE iff close != "" on every successful way after the items
-	cd := a.Desc(closeVal)
-	cf := a.FactsOf(CLOSE.Call)
-	o.req(cf.Has("empty("+cd+")", false), fn, "close token written only if non-empty", CLOSE.Call.Pos(), "facts %s", cf)
-	errLit := Lit{}
-	if itemsErr != nil {
-		errLit = a.nilFact(itemsErr)
-		errLit.Pol = false
-	}
-	for _, r := range a.returns() {
-		if !reachableFrom(items.Block(), nil)[r.Block()] {
-			continue
-		}
-		succ := false
-		for _, res := range r.Results {
-			if isErrorType(res.Type()) && isNilConst(res) {
-				succ = true
-			}
-		}
-		if !succ {
-			continue
-		}
-		p := a.Cut(items.Block(), r, []ssa.Instruction{CLOSE.Call}, []Lit{{"empty(" + cd + ")", true}})
-		o.req(p == nil, fn, "close token written whenever non-empty", r.Pos(), "path %s returns success after the items without the close token", pathString(p))
-	}
-	// TNL: only / whenever items rendered, multi, close non-empty
-	if itemsNull == nil {
-		o.add(Violated, fn, "trailing newline depends on whether items were rendered", items.Pos(), true, "the list renderer's first result is ignored")
-		return o.list
-	}
-	nullAtom := a.Desc(itemsNull)
-	tf := a.FactsOf(TNL.Call)
-	o.req(tf.Has(nullAtom, false) && tf.Has("recv.multi", true) && tf.Has("empty("+cd+")", false), fn, "trailing newline only if items were rendered, the group is multi-line and has a close token", TNL.Call.Pos(), "facts %s", tf)
-	p := a.Cut(items.Block(), CLOSE.Call, []ssa.Instruction{TNL.Call}, []Lit{{nullAtom, true}, {"recv.multi", false}, {"empty(" + cd + ")", true}})
-	o.req(p == nil, fn, "trailing newline whenever items were rendered in a multi-line group with a close token", TNL.Call.Pos(),
-		"path %s reaches the close token of a multi-line group without the newline: a trailing line comment would swallow the close token (no condition on the separator or on the number of items may by-pass it)", pathString(p))
-	// TNL data: "\n", or ",\n" exactly for separator ","
-	commaAtom := `eq(",",recv.separator)`
-	if phi, ok := stripConv(TNL.Data[0]).(*ssa.Phi); ok {
-		for i, e := range phi.Edges {
-			pred := phi.Block().Preds[i]
-			ef := a.FactsOnEdge(pred, phi.Block())
-			s, _ := constString(e)
-			switch s {
-			case "\n":
-				o.req(ef.Has(commaAtom, false), fn, "plain newline before the close token unless the separator is a comma", phi.Pos(), "facts on the edge: %s", ef)
-			case ",\n":
-				o.req(ef.Has(commaAtom, true), fn, "trailing comma only for comma-separated lists", phi.Pos(), "facts on the edge: %s", ef)
-			default:
-				o.add(Violated, fn, "trailing newline text", phi.Pos(), true, "unexpected text %s", a.Desc(e))
-			}
-		}
-	} else if s, ok := constString(TNL.Data[0]); ok && s == "\n" {
-		o.add(Violated, fn, "trailing comma for comma-separated multi-line lists", TNL.Call.Pos(), true, "a multi-line comma-separated list needs a trailing comma before the newline, or the close token is a syntax error")
-	} else {
-		o.undecided(fn, "trailing newline text", TNL.Call.Pos(), "value %s", a.DataDesc(TNL))
-	}
-	return o.list
-}
-
-func sinkName(a *FnA, s *Sink) string {
-	d := a.DataDesc(s)
-	if len(d) > 40 {
-		d = d[:40]
-	}
-	return d
-}
-
 // ---------------------------------------------------------------------------------------------
-
-func ruleIsNull(c *Ctx) []Obligation {
-	o := c.newObs("P-ISNULL")
-	// Group.isNull
-	if f := c.method("Group", c.nullName()); f != nil {
-		a := c.FA(f)
-		fn := fname(f)
-		for _, r := range a.returns() {
-			ws := a.WaysTo(r.Block())
-			v := r.Results[0]
-			if bv, ok := constBool(v); ok {
-				if bv {
-					ok2, bad := allWays(ws, func(w Facts) bool { return w.Has("eq(nil,recv)", true) })
-					o.req(ok2, fn, "returns true outright only for a nil group", r.Pos(), "way %s", bad)
-				} else {
-					ok2, bad := allWays(ws, func(w Facts) bool {
-						return w.Has("eq(nil,recv)", false) && (w.Has("empty(recv.open)", false) || w.Has("empty(recv.close)", false))
-					})
-					o.req(ok2, fn, "returns false outright only for a group with a delimiter", r.Pos(), "way %s", bad)
-				}
-				continue
-			}
-			// delegated to the items test
-			call, isCall := v.(*ssa.Call)
-			okc := isCall && call.Call.StaticCallee() != nil && len(c.FA(call.Call.StaticCallee()).invokes(c.nullName())) > 0 && call.Call.Args[0] == f.Params[0] && call.Call.Args[1] == f.Params[1]
-			ok2, bad := allWays(ws, func(w Facts) bool {
-				return w.Has("eq(nil,recv)", false) && w.Has("empty(recv.open)", true) && w.Has("empty(recv.close)", true)
-			})
-			o.req(okc && ok2, fn, "delimiter-less group is null iff all its items are", r.Pos(), "returns %s on way %s", a.Desc(v), bad)
-		}
-	} else {
-		o.undecided("(*jen.Group).isNull", "anchor", token.NoPos, "anchor lost")
-	}
-	// conjunction loops: Group.isNullItems, Statement.isNull
-	// the items test of Group: the bool helper Group's null test delegates to
-	itemsTest := "isNullItems"
-	if gf := c.method("Group", c.nullName()); gf != nil {
-		for _, cal := range c.staticCallees(gf) {
-			if len(c.FA(cal).invokes(c.nullName())) > 0 {
-				itemsTest = cal.Name()
-			}
-		}
-	}
-	for _, tn := range [][2]string{{"Group", itemsTest}, {"Statement", c.nullName()}} {
-		f := c.method(tn[0], tn[1])
-		if f == nil {
-			o.undecided("(*jen."+tn[0]+")."+tn[1], "anchor", token.NoPos, "anchor lost")
-			continue
-		}
-		a := c.FA(f)
-		fn := fname(f)
-		inv := a.invokes(a.c.nullName())
-		if len(inv) != 1 {
-			o.undecided(fn, "item null test", f.Pos(), "expected one invoke of isNull, found %d", len(inv))
-			continue
-		}
-		N := inv[0]
-		item := N.Common().Value
-		nAtom := a.Desc(callValue(N))
-		nilAtom := nilLit(a, item)
-		hdr := loopHeader(N.Block())
-		for _, r := range a.returns() {
-			ws := a.WaysTo(r.Block())
-			bv, isConst := constBool(r.Results[0])
-			if !isConst {
-				o.undecided(fn, "result", r.Pos(), "returns %s", a.Desc(r.Results[0]))
-				continue
-			}
-			if !bv {
-				ok2, bad := allWays(ws, func(w Facts) bool { return w.Has(nAtom, false) && w.Has(nilAtom, false) })
-				o.req(ok2, fn, "returns false only for an item that is neither nil nor null", r.Pos(), "way %s", bad)
-			} else {
-				// true: nil receiver (Statement) or loop finished
-				ok2, bad := allWays(ws, func(w Facts) bool {
-					if w.Has("eq(nil,recv)", true) {
-						return true
-					}
-					// loop exhausted: the bound test failed
-					for atom, pol := range w {
-						if !pol && strings.HasPrefix(atom, "lt(") && strings.Contains(atom, "builtin.len(") {
-							return true
-						}
-					}
-					return false
-				})
-				o.req(ok2, fn, "returns true only for a nil receiver or after all items were tested", r.Pos(), "way %s", bad)
-			}
-		}
-		// whenever an item is non-nil and non-null: return false (no way back to the loop head)
-		if hdr != nil {
-			for _, p := range hdr.Preds {
-				if !(hdr.Dominates(p)) {
-					continue
-				}
-				ok2, bad := allWays(a.WaysOnEdge(p, hdr), func(w Facts) bool { return w.Has(nAtom, true) || w.Has(nilAtom, true) })
-				o.req(ok2, fn, fmt.Sprintf("loop continues only past nil / null items (from block %d)", p.Index), N.Pos(), "way %s", bad)
-			}
-		}
-	}
-	// token.isNull
-	var tf *ssa.Function
-	for _, f := range c.codeImpls(c.nullName()) {
-		if f.Synthetic == "" && f.Signature.Recv() != nil && types.TypeString(f.Signature.Recv().Type(), shortQual) == "jen.token" {
-			tf = f
-		}
-	}
-	if tf == nil {
-		o.undecided("(jen.token).isNull", "anchor", token.NoPos, "anchor lost")
-	} else {
-		a := c.FA(tf)
-		fn := fname(tf)
-		pkgAtom := `eq("` + c.tokenTypeConst("packageToken") + `",recv.typ)`
-		nullAtom := `eq("` + c.tokenTypeConst("nullToken") + `",recv.typ)`
-		dot, loc := c.role("isDotImport"), c.role("isLocal")
-		for _, r := range a.returns() {
-			v := r.Results[0]
-			ws := a.WaysTo(r.Block())
-			onPkg, _ := allWays(ws, func(w Facts) bool { return w.Has(pkgAtom, true) })
-			offPkg, _ := allWays(ws, func(w Facts) bool { return w.Has(pkgAtom, false) })
-			switch {
-			case onPkg:
-				ok2, why := isDotOrLocal(a, v, dot, loc)
-				o.req(ok2, fn, "a package token is null exactly for a dot-imported or local path", r.Pos(), "%s", why)
-			case offPkg:
-				d := a.Desc(v)
-				o.req(d == "("+`"`+c.tokenTypeConst("nullToken")+`"`+" == recv.typ)" || lone(a.lits(v, true), nullAtom), fn, "any other token is null exactly if it is the null token", r.Pos(), "returns %s", d)
-			default:
-				o.undecided(fn, "result", r.Pos(), "return not classified by token type")
-			}
-		}
-	}
-	// Null() builds a null token, Empty() an empty operator token
-	for _, tl := range c.tokenLits() {
-		if tl.fn.Signature.Recv() == nil || types.TypeString(tl.fn.Signature.Recv().Type(), shortQual) != "*jen.Statement" {
-			continue
-		}
-		switch tl.fn.Name() {
-		case "Null":
-			o.req(tl.typOK && tl.typ == c.tokenTypeConst("nullToken"), fname(tl.fn), "Null() appends a null token", tl.pos, "typ=%q", tl.typ)
-		case "Empty":
-			s, isStr := constString(tl.content)
-			o.req(tl.typOK && tl.typ != c.tokenTypeConst("nullToken") && tl.typ != c.tokenTypeConst("packageToken") && isStr && s == "", fname(tl.fn), "Empty() appends a non-null token with empty text", tl.pos, "typ=%q content=%q", tl.typ, s)
-		}
-	}
-	// tag / comment / Dict
-	for _, f := range c.codeImpls(c.nullName()) {
-		if f.Synthetic != "" || f.Signature.Recv() == nil {
-			continue
-		}
-		a := c.FA(f)
-		switch types.TypeString(f.Signature.Recv().Type(), shortQual) {
-		case "jen.tag":
-			for _, r := range a.returns() {
-				o.req(lone(a.lits(r.Results[0], true), "empty(recv.items)"), fname(f), "a tag is null exactly if it has no items", r.Pos(), "returns %s", a.Desc(r.Results[0]))
-			}
-		case "jen.comment":
-			for _, r := range a.returns() {
-				bv, ok := constBool(r.Results[0])
-				o.req(ok && !bv, fname(f), "a comment is never null", r.Pos(), "returns %s", a.Desc(r.Results[0]))
-			}
-		}
-	}
-	return o.list
-}
-
-func lone(ls []Lit, atom string) bool {
-	return len(ls) == 1 && ls[0].Atom == atom && ls[0].Pol
-}
-
-// isDotOrLocal: v is isDotImport(path) || isLocal(path) with path = the token's content.
-func isDotOrLocal(a *FnA, v ssa.Value, dot, loc *ssa.Function) (bool, string) {
-	if dot == nil || loc == nil {
-		return false, "anchor lost: isDotImport / isLocal"
-	}
-	phi, ok := v.(*ssa.Phi)
-	if !ok {
-		return false, "returns " + a.Desc(v) + " (expected the disjunction of the dot-import and local tests)"
-	}
-	// a || b : phi [true from the block where a held, b otherwise]
-	var calls []*ssa.Call
-	for i, e := range phi.Edges {
-		pred := phi.Block().Preds[i]
-		if bv, ok := constBool(e); ok {
-			if !bv {
-				return false, "constant false operand"
-			}
-			// the edge must assert the first test
-			found := false
-			for _, l := range a.edgeLits(pred, succIndex(pred, phi.Block())) {
-				if l.Pol {
-					if call := callByDesc(a, l.Atom); call != nil {
-						calls = append(calls, call)
-						found = true
-					}
-				}
-			}
-			if !found {
-				return false, "true operand not justified by a test"
-			}
-			continue
-		}
-		call, ok := e.(*ssa.Call)
-		if !ok {
-			return false, "operand " + a.Desc(e)
-		}
-		calls = append(calls, call)
-	}
-	seen := map[*ssa.Function]bool{}
-	for _, call := range calls {
-		sc := call.Call.StaticCallee()
-		if sc != dot && sc != loc {
-			return false, "test " + calleeName(&call.Call)
-		}
-		if call.Call.Args[0] != a.fn.Params[1] || !strings.HasSuffix(a.Desc(call.Call.Args[1]), "recv.content)") && !strings.Contains(a.Desc(call.Call.Args[1]), "recv.content") {
-			return false, "test applied to " + a.Desc(call.Call.Args[1])
-		}
-		seen[sc] = true
-	}
-	if !seen[dot] || !seen[loc] || len(calls) != 2 {
-		return false, fmt.Sprintf("expected exactly the two tests isDotImport and isLocal, found %d", len(calls))
-	}
-	return true, "isDotImport(path) || isLocal(path)"
-}
-
-func succIndex(p, s *ssa.BasicBlock) int {
-	for i, x := range p.Succs {
-		if x == s {
-			return i
-		}
-	}
-	return 0
-}
-
-func callByDesc(a *FnA, d string) *ssa.Call {
-	for _, ci := range a.calls() {
-		if call, ok := ci.(*ssa.Call); ok && a.Desc(call) == d {
-			return call
-		}
-	}
-	return nil
-}
-
-// checkPrevious: every non-nil result of the context lookup is the element one position before an
-// element known to equal the argument.
-func (c *Ctx) checkPrevious(o *obs, f *ssa.Function) {
-	a := c.FA(f)
-	fn := fname(f)
-	nonNil := 0
-	for _, r := range a.returns() {
-		v := r.Results[0]
-		if isNilConst(v) {
-			continue
-		}
-		nonNil++
-		// v = recv[I - 1]
-		u, ok := v.(*ssa.UnOp)
-		var idx ssa.Value
-		if ok {
-			if ia, ok := u.X.(*ssa.IndexAddr); ok && a.Desc(ia.X) == "recv" {
-				if b, ok := ia.Index.(*ssa.BinOp); ok {
-					if n, ok := constInt(b.Y); ok && ((b.Op == token.SUB && n == 1) || (b.Op == token.ADD && n == -1)) {
-						idx = b.X
-					}
-				}
-			}
-		}
-		if idx == nil {
-			o.add(Violated, fn, "returns the element one position before the match", r.Pos(), true, "returns %s", a.Desc(v))
-			continue
-		}
-		facts := a.FactsAt(r.Block())
-		pos := facts.Has("lt(0,"+a.Desc(idx)+")", true)
-		matched := func(i ssa.Value, fs Facts) bool {
-			el := "recv[" + a.Desc(i) + "]"
-			return fs.Has("eq("+min2(el, "p0")+","+max2(el, "p0")+")", true)
-		}
-		okMatch := matched(idx, facts)
-		if phi, isPhi := idx.(*ssa.Phi); isPhi && !okMatch {
-			okMatch = true
-			for i, e := range phi.Edges {
-				if n, isC := constInt(e); isC && n <= 0 {
-					continue // "not found": excluded by the index > 0 test
-				}
-				ok, _ := allWays(a.WaysOnEdge(phi.Block().Preds[i], phi.Block()), func(w Facts) bool { return matched(e, w) })
-				if !ok {
-					okMatch = false
-				}
-			}
-		}
-		o.req(pos && okMatch, fn, "returns the element one position before the match", r.Pos(), "index %s: known > 0: %v, known to be the position of the argument: %v", a.Desc(idx), pos, okMatch)
-	}
-	if nonNil == 0 {
-		o.add(Violated, fn, "returns the element one position before the match", f.Pos(), true, "the lookup never returns an item")
-	}
-}
